@@ -69,6 +69,8 @@ type World struct {
 	// AliasRefs (stress and fan-out runs): listings name posts by an alias address that redirects to the post, so a
 	// page load is a burst of fetches that are all answered with a redirect
 	AliasRefs bool `json:"alias_refs,omitempty"`
+	// NoTotals: collections do not state totalItems (stress runs)
+	NoTotals bool `json:"no_totals,omitempty"`
 }
 
 func (w *World) hostile(i int) string {
@@ -103,6 +105,13 @@ func (w *World) ActURL(prefix string, a, k int) string {
 func (w *World) MissingURL(prefix string, n int) string {
 	return "https://%H0%" + prefix + fmt.Sprintf("/missing%d", n)
 }
+func (w *World) totals() string {
+	if w.NoTotals {
+		return "no-totals"
+	}
+	return ""
+}
+
 func rapid302(i int) int { return []int{301, 302, 303, 307, 308}[i%5] }
 
 func ExternalURL(i int) string { return fmt.Sprintf("https://external.invalid/E%dX", i) }
@@ -130,6 +139,9 @@ func js(v any) string {
 
 func paged(kind string, idURL string, items []any, per int, pageURL func(n int) string, set func(url, doc string), loop ...string) map[string]any {
 	coll := map[string]any{"id": idURL, "type": "OrderedCollection", "totalItems": len(items)}
+	if len(loop) > 1 && loop[1] == "no-totals" {
+		delete(coll, "totalItems")
+	}
 	if per <= 0 || len(items) == 0 {
 		coll["orderedItems"] = items
 		return coll
@@ -216,7 +228,7 @@ func (w *World) Install(sim *vsim.Sim, prefix string) {
 				}
 			}
 			repliesURL := w.PostURL(prefix, i) + "/replies"
-			coll := paged("replies", repliesURL, items, p.RepliesPer, func(n int) string { return fmt.Sprintf("%s/page%d", repliesURL, n) }, set)
+			coll := paged("replies", repliesURL, items, p.RepliesPer, func(n int) string { return fmt.Sprintf("%s/page%d", repliesURL, n) }, set, "", w.totals())
 			set(repliesURL, js(coll))
 			m["replies"] = repliesURL
 		}
@@ -259,7 +271,7 @@ func (w *World) Install(sim *vsim.Sim, prefix string) {
 				items = append(items, u)
 			}
 			outboxURL := w.ActorURL(prefix, j) + "/outbox"
-			coll := paged("outbox", outboxURL, items, a.OutboxPer, func(n int) string { return fmt.Sprintf("%s/page%d", outboxURL, n) }, set, a.OutboxLoop)
+			coll := paged("outbox", outboxURL, items, a.OutboxPer, func(n int) string { return fmt.Sprintf("%s/page%d", outboxURL, n) }, set, a.OutboxLoop, w.totals())
 			if !(w.Hostile > 0 && (w.Hostile+j)%3 == 0) {
 				set(outboxURL, js(coll)) // in some hostile worlds the outbox itself answers with hostile bytes
 			}
